@@ -127,7 +127,7 @@ def complexIdentifiers (r : Reg CKey) (seq : List String) (sst : List Char) : Ex
   let rec loop : Nat → Nat → List String → List Char → List CKey → Except Out CplxIds
     | 0, _, _, _, seen =>
       match minKey seen with
-      | none => .error (.fault "IndexError")        -- `sorted({})[0]` on a complex without strands
+      | none => .error .objectInitErr               -- a complex without strands is rejected
       | some c => .ok { canon := c, turns := wrap (-(lastIdxOf seen c : Int)) n, keys := seen.eraseDups }
     | k + 1, e, s, t, seen =>
       if (r.findCanon (s, t)).isSome then
